@@ -5,7 +5,7 @@ import os
 
 from harness import core, tlaval
 
-CLASSES = ("circuit", "zx", "cartesian", "biclosed", "tensor")
+CLASSES = ("circuit", "zx", "cartesian", "biclosed", "tensor", "grammar")
 
 
 def pools(work, tier, seed, n=None):
@@ -47,6 +47,15 @@ def pools(work, tier, seed, n=None):
                     "src": {"a": [rnd.choice([1, 2, 3]) for _ in range(rnd.randrange(0, 3))],
                             "b": [rnd.choice([2, 3]) for _ in range(rnd.randrange(0, 3))]}})
     out["tensor"] = ten
+    # pregroup sentences: diagrams whose boxes are grammar Words (their constructor takes the codomain first)
+    n_, s_ = [[1, 0]], [[2, 0]]
+    tv = [[1, 1], [2, 0], [1, -1]]          # n.r @ s @ n.l
+    iv = [[1, 1], [2, 0]]                   # n.r @ s
+    adj = [[1, 0], [1, -1]]                 # n @ n.l
+    out["grammar"] = [{"cls": "grammar", "src": {"words": w, "parse": p}} for p in (0, 1) for w in (
+        [["Alice", n_], ["loves", tv], ["Bob", n_]], [["Alice", n_], ["sleeps", iv]],
+        [["big", adj], ["Bob", n_], ["sleeps", iv]], [["Alice", n_], ["loves", tv], ["big", adj], ["Bob", n_]],
+        [["Bob", n_]])]
     return out
 
 
@@ -70,6 +79,17 @@ def build(desc):
             return None
         d = biclosed.Id(box.dom) >> box >> biclosed.Id(box.cod)
         return d @ biclosed.Id(box.dom[:1]) if desc.get("var") else d
+    if cls == "grammar":
+        from discopy import rigid
+        from discopy.grammar import pregroup
+        names = {1: "n", 2: "s"}
+        words = [pregroup.Word(w, rigid.Ty(*[rigid.Ob(names[a[0]], a[1]) for a in t])) for w, t in src["words"]]
+        if src.get("parse"):
+            try:
+                return pregroup.eager_parse(*words, target=rigid.Ty("s"))
+            except NotImplementedError:
+                pass
+        return rigid.Id(rigid.Ty()).tensor(*words)
     if cls == "tensor":
         import numpy as np
         from discopy import tensor
